@@ -846,3 +846,78 @@ Proof.
          (mkMsg 10 None 0 1 60000 5 [] true).
   eexists. split; [reflexivity|]. split; [vm_compute; reflexivity|]. repeat split; vm_compute; reflexivity.
 Qed.
+
+(* ------------------------------------------------------------------ EIP-158/161: the deletion rule *)
+
+(* after Finalise an account exists iff it existed before and either was not touched (not in the dirty set), or is
+   neither flagged suicided nor — where empty accounts are deleted — empty *)
+Theorem finalise_e_iff de su sF es a :
+  In a (es_exist (finalise_e de su sF es)) <->
+  In a (es_exist es) /\
+  (~ In a (es_dirty es) \/ (~ In a su /\ (de = true -> is_empty_acc (get a sF) = false))).
+Proof.
+  unfold finalise_e. cbn [es_exist]. rewrite filter_In. split.
+  - intros (Hin & Hf). split; [exact Hin|].
+    destruct (memN a (es_dirty es)) eqn:Ed.
+    + right. cbn [andb] in Hf. apply Bool.negb_true_iff, Bool.orb_false_iff in Hf. destruct Hf as (H1 & H2). split.
+      * intros Hs. apply memN_In in Hs. congruence.
+      * intros ->. exact H2.
+    + left. intros Hd. apply memN_In in Hd. congruence.
+  - intros (Hin & [Hnd | (Hns & He)]); split; try exact Hin.
+    + destruct (memN a (es_dirty es)) eqn:Ed; [apply memN_In in Ed; contradiction|reflexivity].
+    + apply Bool.negb_true_iff, Bool.andb_false_iff. right. apply Bool.orb_false_iff. split.
+      * destruct (memN a su) eqn:Es; [apply memN_In in Es; contradiction|reflexivity].
+      * destruct de; [apply He; reflexivity|reflexivity].
+Qed.
+
+(* touched-and-empty accounts are deleted where empty accounts are deleted; suicided ones always *)
+Corollary finalise_e_deletes de su sF es a :
+  In a (es_dirty es) -> (In a su \/ (de = true /\ is_empty_acc (get a sF) = true)) ->
+  ~ In a (es_exist (finalise_e de su sF es)).
+Proof.
+  intros Hd Hc Hin. apply finalise_e_iff in Hin. destruct Hin as (_ & [Hn | (Hns & He)]); [contradiction|].
+  destruct Hc as [Hs | (-> & Hem)]; [contradiction|]. rewrite He in Hem by reflexivity. discriminate.
+Qed.
+
+Lemma memN_addset a b l : memN a (addset b l) = (a =? b) || memN a l.
+Proof.
+  unfold addset. destruct (memN b l) eqn:E; [|cbn [memN]; rewrite N.eqb_sym; reflexivity].
+  destruct (a =? b) eqn:Eab; [|reflexivity]. apply N.eqb_eq in Eab. subst. rewrite E. reflexivity.
+Qed.
+
+(* what counts as a touch: AddBalance of zero to an existing empty account (a zero-value call / transfer, a zero
+   SELFDESTRUCT payout, a zero fee to the coinbase) puts it in the dirty set; AddBalance to a missing account creates it *)
+Lemma es_add_balance_touch a x s es :
+  (x <> 0%Z \/ is_empty_acc (get a s) = true \/ ~ In a (es_exist es)) -> In a (es_dirty (es_add_balance a x s es)).
+Proof.
+  intros H. unfold es_add_balance. apply memN_In.
+  destruct (memN a (es_exist es)) eqn:Ee.
+  - destruct (x =? 0)%Z eqn:Ex.
+    + destruct (is_empty_acc (get a s)) eqn:Em; [cbn; rewrite memN_addset, N.eqb_refl; reflexivity|].
+      destruct H as [H | [H | H]]; [lia|discriminate|apply memN_In in Ee; contradiction].
+    + cbn. rewrite memN_addset, N.eqb_refl. reflexivity.
+  - cbn. rewrite memN_addset, N.eqb_refl. reflexivity.
+Qed.
+
+(* the coinbase of a transaction: if it is empty after the transaction (zero fee to an empty or missing coinbase) it
+   does not exist afterwards where empty accounts are deleted — also when it was an existing empty account before *)
+Theorem empty_coinbase_deleted cfg num coinbase run erun idx s pool cum m es r :
+  apply_transaction cfg num coinbase run idx s pool cum m = TxOk r ->
+  (is_forked (c_byzantium cfg) num = true \/ is_forked (c_eip158 cfg) num = true) ->
+  is_empty_acc (get coinbase (t_state (x_tdb r))) = true ->
+  ~ In coinbase (es_exist (apply_transaction_e cfg num coinbase run erun idx s pool cum m es)).
+Proof.
+  intros Happly Hde Hem. unfold apply_transaction_e. rewrite Happly.
+  match goal with |- ~ In _ (es_exist (finalise_e ?de ?su ?sF ?e)) => set (E := e); set (D := de) end.
+  apply finalise_e_deletes.
+  - subst E. apply memN_In.
+    match goal with |- context[if memN coinbase (es_exist ?c) then _ else _] => set (esC := c) end.
+    unfold is_empty_acc in Hem. apply Bool.andb_true_iff in Hem. destruct Hem as (Hem & Hc).
+    apply Bool.andb_true_iff in Hem. destruct Hem as (Hb & Hn).
+    destruct (memN coinbase (es_exist esC)); [|cbn; rewrite memN_addset, N.eqb_refl; reflexivity].
+    destruct (Z.of_N (t_used (x_tdb r) * m_price m) =? 0)%Z eqn:Ef;
+      [|cbn; rewrite memN_addset, N.eqb_refl; reflexivity].
+    apply Z.eqb_eq in Ef. rewrite Ef, Z.sub_0_r, Hb, Hn, Hc. cbn. rewrite memN_addset, N.eqb_refl. reflexivity.
+  - right. split; [|exact Hem]. subst D. destruct Hde as [-> | ->]; [reflexivity|].
+    destruct (is_forked (c_byzantium cfg) num); reflexivity.
+Qed.
